@@ -163,8 +163,8 @@ def _make_wfs_table(
 
     # all wf indices in order
     wf_idx = np.sort(unit_wf_idx.flatten())
-    # remove initial zeros
-    wf_idx = wf_idx[np.nonzero(wf_idx)[0][0]:]
+    # remove the zeros that pad the units with less than max_wf spikes (spike index 0 itself may be selected)
+    wf_idx = wf_idx[int(np.sum(max_wf - np.minimum(max_wf, unit_nspikes))):]
 
     # get sample times, clusters, channels
     wf_flat = pd.DataFrame(
